@@ -184,10 +184,11 @@ theorem LInv.step {c : Cfg} {s : St} (l : LInv s) (e : Ev) : LInv (step c s e) :
   | nodeDone n => exact l.same (fun d h => h) rfl
   | nodeFailed n => exact l
   | nodeReset n => exact l
+  | restart => exact l.same (fun d h => h) rfl
   | removeEmpty => exact l.ofFrame (foldRemove_frame (fun a => (c.namesOf a).isEmpty) s.dom s)
   | cacheMap => exact l.same (fun d h => (cacheMap_disk c s) ▸ h) (by show (cacheMap c s).report.paths = _; rw [cacheMap_report])
   | early upto =>
-    show LInv (if s.final then s else Martian.Vdr.cleanTmp c s (min upto 2))
+    show LInv (if s.final then s else Martian.Vdr.cleanTmp c s (min upto 3))
     split
     · exact l
     · exact l.cleanTmp _
